@@ -4,6 +4,7 @@ import (
 	"context"
 	"fmt"
 	"testing"
+	"time"
 
 	"github.com/ory/keto/internal/check"
 	"github.com/ory/keto/internal/check/checkgroup"
@@ -25,6 +26,8 @@ type travIn struct {
 	// SQLFaults: additionally, every SQL statement of each engine check is made to fail once (C03 on wide nodes)
 	SQLFaults bool `json:"sqlfaults"`
 }
+
+const wideGrace = 10 * time.Second
 
 func init() { families["traverse"] = famTraverse }
 
@@ -89,7 +92,15 @@ func famTraverse(t *testing.T) {
 			}
 			res := map[string]any{"case": ci}
 			q := internalTuple(t, reg, &ketoapi.RelationTuple{Namespace: "n", Object: "s", Relation: "r", SubjectID: ptr("u")})
-			rows, err := reg.Traverser().TraverseSubjectSetExpansion(ctx, q)
+			// a traversal or check that has not finished after wideGrace is stopped through its context and reported
+			tctx, tcancel := context.WithTimeout(ctx, wideGrace)
+			sqlCtl.begin(0, 0)
+			rows, err := reg.Traverser().TraverseSubjectSetExpansion(tctx, q)
+			res["traversal_statements"] = len(sqlCtl.end())
+			if tctx.Err() != nil {
+				res["traversal_timeout"] = true
+			}
+			tcancel()
 			if err != nil {
 				res["error"] = err.Error()
 			} else {
@@ -114,8 +125,11 @@ func famTraverse(t *testing.T) {
 			// the same node through the engine: direct (first hop) and second hop
 			eng := check.NewEngine(reg)
 			for name, sub := range map[string]string{"u": "u", "v": "v", "nobody": "nobody"} {
-				cctx, cancel := context.WithCancel(ctx)
+				cctx, cancel := context.WithTimeout(ctx, wideGrace)
 				r := eng.CheckRelationTuple(cctx, internalTuple(t, reg, &ketoapi.RelationTuple{Namespace: "n", Object: "s", Relation: "r", SubjectID: ptr(sub)}), 0)
+				if cctx.Err() != nil {
+					res["check_"+name+"_timeout"] = true
+				}
 				cancel()
 				res["check_"+name] = r.Membership == checkgroup.IsMember && r.Err == nil
 				if r.Err != nil {
@@ -127,7 +141,7 @@ func famTraverse(t *testing.T) {
 				for _, sub := range []string{"u", "v", "nobody"} {
 					q := internalTuple(t, reg, &ketoapi.RelationTuple{Namespace: "n", Object: "s", Relation: "r", SubjectID: ptr(sub)})
 					run := func(failAt int) (byte, int) {
-						cctx, cancel := context.WithCancel(ctx)
+						cctx, cancel := context.WithTimeout(ctx, wideGrace)
 						defer cancel()
 						sqlCtl.begin(failAt, 0)
 						r := eng.CheckRelationTuple(cctx, q, 0)
